@@ -310,7 +310,8 @@ fn check_graph(g: &Graph, qtype: QueryType, mode: ModeK) -> (Vec<(&'static str, 
         ModeK::Forwarding => Mode::Forwarding(fwd_addr()),
     };
     spec.explore_orders = false;
-    let res = run_once(&spec, &[]);
+    // every 16th execution under a log-rendering subscriber (net.rs)
+    let res = run_once_some_traced(&spec, &[], 16);
     let mut out: Vec<(&'static str, String)> = Vec::new();
     let ask = &res.asks[0];
     let elapsed_ms = (ask.end_ns - ask.start_ns) / 1_000_000;
